@@ -296,6 +296,8 @@ class BVContext:
                 return self.byte_of(base, idx[1])
             if is_const(base) and isinstance(base[1], (tuple, list)):
                 return self.affine_lookup(base[1], self.to_bv(idx))
+            if base[0] == "gval" and isinstance(getattr(base[1], "v", None), (tuple, list)):
+                return self.affine_lookup(base[1].v, self.to_bv(idx))  # a table folded from the function's constant prologue
             return None
         if k == "bin":
             op, a, b = t[1], self.to_bv(t[2]), self.to_bv(t[3])
